@@ -17,7 +17,6 @@ import (
 	"fmt"
 	"strconv"
 	"strings"
-	"time"
 
 	metav1 "k8s.io/apimachinery/pkg/apis/meta/v1"
 
@@ -35,10 +34,11 @@ const (
 )
 
 type c09Op struct {
-	Op     string `json:"op"` // quota | cfgsync | count | hb | elapse | strategy | schema | enable
-	D      string `json:"d"`  // quota: mi | tb | none
-	A      int32  `json:"a"`  // quota: max | qps
+	Op     string `json:"op"` // quota | cfgsync | count | hb | leader | elapse | strategy | schema | delete | enable
+	D      string `json:"d"`  // quota: mi | tb | none | both
+	A      int32  `json:"a"`  // quota: max | qps (both: max)
 	B      int32  `json:"b"`  // quota: burst
+	Q      int32  `json:"q"`  // quota both: qps
 	S      string `json:"s"`  // quota/strategy: strategy text; elapse: unused
 	R      string `json:"r"`  // count: err | old | ok
 	Accept bool   `json:"accept"`
@@ -47,8 +47,10 @@ type c09Op struct {
 	MX     int32  `json:"mx"`   // count err: meter max in-flight reading
 	Rate   int32  `json:"rate"` // count err: meter rate reading
 	Ready  bool   `json:"ready"`
-	Sec    int    `json:"sec"`
-	NL1    int32  `json:"nl1"` // schema: new local / global limits (same type)
+	Ms     int64  `json:"ms"`  // elapse: virtual milliseconds
+	NK     string `json:"nk"`  // schema: type (mi | tb) and strategy of the new schema
+	NS     string `json:"ns"`
+	NL1    int32  `json:"nl1"` // schema: new local / global limits
 	NL2    int32  `json:"nl2"`
 	NG1    int32  `json:"ng1"`
 	NG2    int32  `json:"ng2"`
@@ -144,6 +146,9 @@ func mkItem(op c09Op) proxyv1alpha1.RateLimitItemConfiguration {
 		it.MaxRequestsInflight = &proxyv1alpha1.MaxRequestsInflightFlowControlSchema{Max: op.A}
 	case "tb":
 		it.TokenBucket = &proxyv1alpha1.TokenBucketFlowControlSchema{QPS: op.A, Burst: op.B}
+	case "both":
+		it.MaxRequestsInflight = &proxyv1alpha1.MaxRequestsInflightFlowControlSchema{Max: op.A}
+		it.TokenBucket = &proxyv1alpha1.TokenBucketFlowControlSchema{QPS: op.Q, Burst: op.B}
 	}
 	return it
 }
@@ -162,6 +167,9 @@ func describeItem(it proxyv1alpha1.RateLimitItemConfiguration) *itemDesc {
 }
 
 func describeRemote(cache remote.FlowControlCache) (rd *remDesc) {
+	if cache == nil {
+		return nil
+	}
 	rw := cache.FlowControl()
 	if rw == nil {
 		return nil
@@ -185,9 +193,9 @@ func probe(l flowcontrols.UpstreamLimiter, cache remote.FlowControlCache, capAdm
 	st.Adm = -1
 	fc := l.GetOrDefault(schema)
 	switch {
-	case fc == flowcontrol.FlowControl(cache.LocalFlowControl()):
+	case cache != nil && fc == flowcontrol.FlowControl(cache.LocalFlowControl()):
 		st.Sel = "local"
-	case cache.FlowControl() != nil && fc == flowcontrol.FlowControl(cache.FlowControl()):
+	case cache != nil && cache.FlowControl() != nil && fc == flowcontrol.FlowControl(cache.FlowControl()):
 		st.Sel = "remote"
 	case fc == flowcontrol.DefaultFlowControl:
 		st.Sel = "default"
@@ -235,9 +243,24 @@ func runC09(raw json.RawMessage) interface{} {
 	if cache == nil {
 		panic("schema not created")
 	}
-	defer cache.Stop()
+	defer func() {
+		if cache != nil {
+			cache.Stop() // a deleted cache was stopped by FlowControlMap.Delete
+		}
+		if cs != nil {
+			clientsets.VerifForget(cs, shard)
+		}
+	}()
 	rec := flowcontrols.VerifReconcile(lim)
-	meter := remote.VerifMeter(cache)
+	var vnow int64 // virtual milliseconds
+	syncSchemas := func(present bool) {
+		fc := proxyv1alpha1.FlowControl{}
+		if present {
+			fc.Schemas = []proxyv1alpha1.FlowControlSchema{mkSchema(&c, strategy)}
+		}
+		lim.Sync(fc)
+		cache = lim.AllFlowControls()[schema] // nil after a delete, a new object after a re-add
+	}
 	probeCap := func() int {
 		capAdm := int(c.G1) + 5 // follows the global limit currently configured
 		if capAdm < 5 {
@@ -285,10 +308,13 @@ func runC09(raw json.RawMessage) interface{} {
 				remote.VerifUpdateGlobalCount(rec)
 			case "enable":
 				// the reconcile goroutine is preempted between EnableRemoteFlowControl and Sync
-				if remote.EnableGlobalFlowControl(cache.LocalFlowControl().Config()) && cache.FlowControl() == nil {
+				if cache != nil && remote.EnableGlobalFlowControl(cache.LocalFlowControl().Config()) && cache.FlowControl() == nil {
 					cache.EnableRemoteFlowControl()
 				}
 			case "count":
+				if cache == nil {
+					break
+				}
 				rw := cache.FlowControl()
 				if rw == nil {
 					break
@@ -296,7 +322,7 @@ func runC09(raw json.RawMessage) interface{} {
 				var res *remote.AcquireResult
 				switch op.R {
 				case "err":
-					util.VerifSetReadings(meter, op.MX, float64(op.Rate))
+					util.VerifSetReadings(remote.VerifMeter(cache), op.MX, float64(op.Rate))
 					res = remote.VerifAcquireResult(false, 0, "limiter server unavailable", op.RT)
 				case "old":
 					res = remote.VerifAcquireResult(false, 0, "RequestIDTooOld", op.RT)
@@ -308,19 +334,29 @@ func runC09(raw json.RawMessage) interface{} {
 				rw.SetLimit(res)
 			case "hb":
 				if cs != nil {
-					clientsets.VerifHeartbeat(cs, shard, "srv", op.Ready)
+					clientsets.VerifHeartbeatAt(cs, shard, "srv", op.Ready, vnow)
+				}
+			case "leader":
+				// clientSets.sync() saw another leader for the shard: setLeaderStatus(shard, newLeader, true).
+				// (the endpoint itself is not stored: a real client would start talking to it)
+				if cs != nil {
+					clientsets.VerifHeartbeatAt(cs, shard, "srv-"+op.S, true, vnow)
 				}
 			case "elapse":
-				if cs != nil && op.Sec > 0 {
-					clientsets.VerifAge(cs, shard, time.Duration(op.Sec)*time.Second)
+				if op.Ms > 0 {
+					vnow += op.Ms
 				}
 			case "strategy":
 				strategy = op.S
-				lim.Sync(proxyv1alpha1.FlowControl{Schemas: []proxyv1alpha1.FlowControlSchema{mkSchema(&c, strategy)}})
+				syncSchemas(true)
 			case "schema":
-				// the operator changes the limits of the schema: UpstreamLimiter.Sync -> localWrapper.Sync
+				// the operator changes the schema (type, strategy, limits), or adds it again:
+				// UpstreamLimiter.Sync -> localWrapper.Sync
+				c.Kind, strategy = op.NK, op.NS
 				c.L1, c.L2, c.G1, c.G2 = op.NL1, op.NL2, op.NG1, op.NG2
-				lim.Sync(proxyv1alpha1.FlowControl{Schemas: []proxyv1alpha1.FlowControlSchema{mkSchema(&c, strategy)}})
+				syncSchemas(true)
+			case "delete":
+				syncSchemas(false)
 			default:
 				panic(fmt.Sprintf("unknown op %q", op.Op))
 			}
